@@ -11,7 +11,7 @@ import (
 
 func init() {
 	register("C17", propMeta{
-		Explanation: "E-GUARD + E-PAIR + E-CHAN + E-PROV on common/turbotunnel. O-1 errors only after close: in RedialPacketConn.ReadFrom/WriteTo every return with a non-nil error is reachable only through a '<-closed' select case; closed is closed only in closeWithError, called only from Close and from the err != nil edge of dialContext. O-2 one carrier at a time, each closed: in dialLoop a carrier obtained on the err == nil edge reaches conn.Close() on every path before the next dial or a return; exchange is called synchronously. O-3 no goroutine outlives its carrier: in every goroutine literal of the package each blocking select has a case on the connection's closed channel, and each unconditional send goes to a channel made by the enclosing call whose constant capacity covers the sends the goroutine can perform before returning. O-4 copy-on-enqueue, never block: every send on a packet queue is inside a select with default and sends a slice made by this invocation, filled by copy from the caller's buffer, of the caller's length; no []byte parameter flows into a send, a struct field or a global; both ReadFrom methods return copy(p, queued). O-5 close-once and publication order: close(closed) only inside closeOnce.Do and after err.Store. O-6 closed means failed: ReadFrom/WriteTo/QueueIncoming test closed (polling) before touching a queue. O-7 expiry shape: removeExpired pops only while now.Sub(oldest.LastSeen) >= timeout with the unscaled timeout; Less orders by LastSeen.Before; the sweeper sleeps timeout/2 and passes the same timeout; SendQueue refreshes LastSeen before heap.Fix/heap.Push; Pop closes the removed queue. Each clause is necessary: e.g. an unbuffered error channel retains one goroutine and carrier per redial. Added after the second seeding round: O-7 also requires that Push/Pop/Swap of clientMapInner have no static caller outside the interface methods (container/heap only); named methods started with go count as goroutine bodies when that go statement is their only use. Added after the third seeding round: the writer goroutine of exchange signals its end on every return (close or send on writeErrCh); the sweeper reads the clock after its sleep; the expiry function is identified by shape if renamed.",
+		Explanation: "E-GUARD + E-PAIR + E-CHAN + E-PROV on common/turbotunnel. O-1 errors only after close: in RedialPacketConn.ReadFrom/WriteTo every return with a non-nil error is reachable only through a '<-closed' select case; closed is closed only in closeWithError, called only from Close and from the err != nil edge of dialContext. O-2 one carrier at a time, each closed: in dialLoop a carrier obtained on the err == nil edge reaches conn.Close() on every path before the next dial or a return; exchange is called synchronously. O-3 no goroutine outlives its carrier: in every goroutine literal of the package each blocking select has a case on the connection's closed channel, and each unconditional send goes to a channel made by the enclosing call whose constant capacity covers the sends the goroutine can perform before returning. O-4 copy-on-enqueue, never block: every send on a packet queue is inside a select with default and sends a slice made by this invocation, filled by copy from the caller's buffer, of the caller's length; no []byte parameter flows into a send, a struct field or a global; both ReadFrom methods return copy(p, queued). O-5 close-once and publication order: close(closed) only inside closeOnce.Do and after err.Store. O-6 closed means failed: ReadFrom/WriteTo/QueueIncoming test closed (polling) before touching a queue. O-7 expiry shape: removeExpired pops only while now.Sub(oldest.LastSeen) >= timeout with the unscaled timeout; Less orders by LastSeen.Before; the sweeper sleeps timeout/2 and passes the same timeout; SendQueue refreshes LastSeen before heap.Fix/heap.Push; Pop closes the removed queue. Each clause is necessary: e.g. an unbuffered error channel retains one goroutine and carrier per redial. Added after the second seeding round: O-7 also requires that Push/Pop/Swap of clientMapInner have no static caller outside the interface methods (container/heap only); named methods started with go count as goroutine bodies when that go statement is their only use. Added after the third seeding round: the writer goroutine of exchange signals its end on every return (close or send on writeErrCh); the sweeper reads the clock after its sleep; the expiry function is identified by shape if renamed. Added after the fourth seeding round: O-8/C05 the client-map index obligations (Swap, Push, Pop, SendQueue keep byAddr equal to the heap position; no stale index after heap.Fix); the queue of a removed record may be closed by Pop or by every caller of heap.Pop/heap.Remove.",
 		NotDecided:  "FIFO order of Go channels (language guarantee), actual timing of the sweeper, KCP behaviour above the adapters.",
 		Assumptions: []string{"conn.Close() unblocks a carrier's pending ReadFrom/WriteTo (net.PacketConn contract)", "Go channel semantics"},
 	}, runC17)
@@ -25,51 +25,7 @@ func runC17(c *Ctx) {
 	}
 
 	// ---------- O-1 / O-6: errors only after close; closed means failed ----------
-	for _, typ := range []string{"RedialPacketConn", "QueuePacketConn"} {
-		closedCls := typ + ".closed"
-		for _, m := range []string{"ReadFrom", "WriteTo"} {
-			fn := p.Fn("common/turbotunnel", "(*"+typ+")."+m)
-			if fn == nil {
-				c.undecided("O-1 errors only after close", typ+"."+m, "-", "anchor does not resolve")
-				continue
-			}
-			var closedEdges []Edge
-			var firstOp *chanOp
-			ops := chanOpsIn(p, fn)
-			for i := range ops {
-				op := &ops[i]
-				if op.Dir == chMake {
-					continue
-				}
-				if firstOp == nil || op.Instr.Pos() < firstOp.Instr.Pos() {
-					firstOp = op
-				}
-				if op.Dir == chRecv && op.Class == closedCls && op.Sel != nil {
-					if e, ok := selectCaseEdge(op.Sel, op.State); ok {
-						closedEdges = append(closedEdges, e)
-					}
-				}
-			}
-			ei := errResultIndex(fn.Signature)
-			nErr := 0
-			bad := false
-			for _, r := range returnsOf(fn) {
-				if isNilConst(r.Results[ei]) {
-					continue
-				}
-				nErr++
-				if path := reachableWithout(fn, r, closedEdges); path != nil {
-					bad = true
-					c.viol("O-1 errors only after close", typ+"."+m+" returns an error only after '<-closed'", p.instrPos(r), "an error return is reachable without the closed channel having fired: KCP sees a transient carrier fault as a fatal error", p.pathString(path)...)
-				}
-			}
-			if !bad {
-				c.check(nErr > 0 && len(closedEdges) > 0, "O-1 errors only after close", typ+"."+m+" returns an error only after '<-closed'", p.Pos(fn.Pos()), fmt.Sprintf("%d error return(s), all behind a closed case", nErr), "no error return / no closed case found")
-			}
-			// O-6: the first channel operation is a polling test of closed
-			c.check(firstOp != nil && firstOp.Class == closedCls && firstOp.Mode == "polling", "O-6 closed means failed", typ+"."+m+" tests closed before touching a queue", p.Pos(fn.Pos()), "", "the operation touches a queue before (or without) a non-blocking test of the closed channel")
-		}
-	}
+	c.checkErrorsOnlyAfterClose("RedialPacketConn", "QueuePacketConn")
 	if qi := p.Fn("common/turbotunnel", "(*QueuePacketConn).QueueIncoming"); qi != nil {
 		ops := chanOpsIn(p, qi)
 		ok := false
@@ -200,6 +156,11 @@ func runC17(c *Ctx) {
 	c.checkGoroutineExits(tt)
 
 	// ---------- O-4 copy-on-enqueue, never block ----------
+	// a packet written to an address lands in that client's queue only if the map from addresses to heap
+	// positions follows every move of the heap (C05's index obligations)
+	c.prefix = "O-8/C05:"
+	c.checkClientMapIndex()
+	c.prefix = ""
 	c.checkCopyOnEnqueue(tt)
 
 	// ---------- O-7 expiry shape ----------
@@ -678,7 +639,8 @@ func (c *Ctx) checkExpiry() {
 		}
 		c.check(okFix, rule, "SendQueue fixes the heap at the index found for the address", p.Pos(sq.Pos()), "", "heap.Fix is not applied at byAddr[addr]")
 	}
-	// Pop closes the removed record's queue
+	// every record taken out of the map has its queue closed: by Pop itself, or by each caller of
+	// heap.Pop/heap.Remove on the map right after the removal
 	if pop := p.Fn("common/turbotunnel", "(*clientMapInner).Pop"); pop != nil {
 		ok := false
 		for _, op := range chanOpsIn(p, pop) {
@@ -686,10 +648,96 @@ func (c *Ctx) checkExpiry() {
 				ok = true
 			}
 		}
-		c.check(ok, rule, "clientMapInner.Pop closes the removed record's queue", p.Pos(pop.Pos()), "", "a discarded queue is not closed: the carrier's write loop waits on it for ever")
+		where := "in Pop"
+		if !ok {
+			// caller form
+			nSites, good := 0, true
+			for _, fn := range p.FnsIn("common/turbotunnel") {
+				for _, ci := range callsTo(fn, "container/heap.Pop", "container/heap.Remove") {
+					cc, isCall := ci.(*ssa.Call)
+					if !isCall || !strings.HasSuffix(ci.Common().Args[0].Type().String(), "clientMapInner") {
+						if mi, isMI := ci.Common().Args[0].(*ssa.MakeInterface); !isMI || !strings.HasSuffix(mi.X.Type().String(), "clientMapInner") {
+							continue
+						}
+					}
+					nSites++
+					closed := false
+					if isCall {
+						for _, op := range chanOpsIn(p, fn) {
+							if op.Dir != chClose || op.Class != "clientRecord.SendQueue" {
+								continue
+							}
+							// the closed queue belongs to the removed record and the close follows on every path
+							fromPop := flows(op.Chan, func(v ssa.Value) bool { return v == ssa.Value(cc) })
+							if fromPop && escapesOrLoopsWithout(cc, func(in ssa.Instruction) bool { return in == op.Instr }) == nil {
+								closed = true
+							}
+						}
+					}
+					if !closed {
+						good = false
+					}
+				}
+			}
+			ok = nSites > 0 && good
+			where = fmt.Sprintf("by the %d caller(s) of heap.Pop/heap.Remove", nSites)
+		}
+		c.check(ok, rule, "the queue of a record removed from the client map is closed", p.Pos(pop.Pos()), where, "a discarded queue is not closed: the carrier's write loop waits on it for ever")
 	}
 }
 
 func inSameBlockBefore(a, b ssa.Instruction) bool {
 	return a.Block() == b.Block() && instrIndex(a) < instrIndex(b)
+}
+
+// checkErrorsOnlyAfterClose: ReadFrom/WriteTo of the packet adapters return a
+// non-nil error only behind a '<-closed' case (kcp-go treats any error of its
+// packet conn as fatal for the session), and test closed before touching a queue.
+func (c *Ctx) checkErrorsOnlyAfterClose(types ...string) {
+	p := c.P
+	for _, typ := range types {
+		closedCls := typ + ".closed"
+		for _, m := range []string{"ReadFrom", "WriteTo"} {
+			fn := p.Fn("common/turbotunnel", "(*"+typ+")."+m)
+			if fn == nil {
+				c.undecided("O-1 errors only after close", typ+"."+m, "-", "anchor does not resolve")
+				continue
+			}
+			var closedEdges []Edge
+			var firstOp *chanOp
+			ops := chanOpsIn(p, fn)
+			for i := range ops {
+				op := &ops[i]
+				if op.Dir == chMake {
+					continue
+				}
+				if firstOp == nil || op.Instr.Pos() < firstOp.Instr.Pos() {
+					firstOp = op
+				}
+				if op.Dir == chRecv && op.Class == closedCls && op.Sel != nil {
+					if e, ok := selectCaseEdge(op.Sel, op.State); ok {
+						closedEdges = append(closedEdges, e)
+					}
+				}
+			}
+			ei := errResultIndex(fn.Signature)
+			nErr := 0
+			bad := false
+			for _, r := range returnsOf(fn) {
+				if isNilConst(r.Results[ei]) {
+					continue
+				}
+				nErr++
+				if path := reachableWithout(fn, r, closedEdges); path != nil {
+					bad = true
+					c.viol("O-1 errors only after close", typ+"."+m+" returns an error only after '<-closed'", p.instrPos(r), "an error return is reachable without the closed channel having fired: KCP sees a transient carrier fault as a fatal error", p.pathString(path)...)
+				}
+			}
+			if !bad {
+				c.check(nErr > 0 && len(closedEdges) > 0, "O-1 errors only after close", typ+"."+m+" returns an error only after '<-closed'", p.Pos(fn.Pos()), fmt.Sprintf("%d error return(s), all behind a closed case", nErr), "no error return / no closed case found")
+			}
+			// O-6: the first channel operation is a polling test of closed
+			c.check(firstOp != nil && firstOp.Class == closedCls && firstOp.Mode == "polling", "O-6 closed means failed", typ+"."+m+" tests closed before touching a queue", p.Pos(fn.Pos()), "", "the operation touches a queue before (or without) a non-blocking test of the closed channel")
+		}
+	}
 }
